@@ -10,6 +10,7 @@ import (
 	"strconv"
 	"strings"
 
+	"github.com/goplus/gogen/packages"
 	"github.com/goplus/gogen/packages/cache"
 
 	cw "gogenverif/sim/c20world"
@@ -42,6 +43,8 @@ type seqRun struct {
 	stubN     int // stub invocations consumed so far
 	knownSeen []core.Violation
 	tapes     *seams.Tapes
+	pimp      *packages.Importer // long-lived cache-less importer of the run
+	pmemo     map[string]string  // what it has imported successfully
 }
 
 func exists(path string) bool {
@@ -53,6 +56,7 @@ func resetRoot(root string) {
 	os.RemoveAll(root)
 	os.MkdirAll(filepath.Join(root, "exp"), 0o755)
 	os.MkdirAll(filepath.Join(root, "work"), 0o755)
+	os.MkdirAll(filepath.Join(root, "work2"), 0o755)
 }
 
 func newWorld(root string, r *Record) *world {
@@ -347,21 +351,55 @@ func (s *seqRun) find(op Op, idx int) {
 }
 
 // importNoCache: a packages.Importer without a cache lists the package on every import
-// (packages/imp.go findExport), so what it returns is always current.
+// (packages/imp.go findExport), in the directory the import comes from, so what it returns is
+// always current - except that an importer answers a path it has imported before from its own
+// table ("two calls with the same path must return the same package"). op.B bit 0: the run's
+// long-lived importer instead of a fresh one; op.A bit 0: ImportFrom with an explicit
+// directory, bit 1: that directory is the second one, another module in which odd-numbered
+// packages do not exist and the others are a different build.
 func (s *seqRun) importNoCache(op Op, idx int) {
-	path := pkgName(op.Pkgs[0] % s.w.n)
+	i := op.Pkgs[0] % s.w.n
+	path := pkgName(i)
 	if op.Fault != "" {
 		s.w.planFault(op.Fault)
 	}
+	dirA, dirB := filepath.Join(s.w.root, "work"), filepath.Join(s.w.root, "work2")
+	from := op.A%2 == 1
+	dir, want := dirA, "A"
+	if from && op.A/2%2 == 1 {
+		dir, want = dirB, "B"
+	}
+	persistent := op.B%2 == 1
+	imp := packages.NewImporter(nil, dirA)
+	if persistent {
+		if s.pimp == nil {
+			s.pimp = imp
+			s.pmemo = map[string]string{}
+		}
+		imp = s.pimp
+	}
 	var content string
 	var err error
-	if s.call("import", func() { content, err = importVia(nil, filepath.Join(s.w.root, "work"), path, op.A%2 == 1) }) {
+	if s.call("import", func() { content, err = importWith(imp, dir, path, from) }) {
 		return
 	}
 	nw := s.consumeStub()
-	s.obs = append(s.obs, fmt.Sprintf("%d import_nocache %s -> %q %s lists=%d", idx, path, content, errStr(err), len(nw)))
-	tag := fmt.Sprintf("op %d Importer.Import(%s) without cache", idx, path)
-	truth := s.w.stateID(pkgIndex(path))
+	s.obs = append(s.obs, fmt.Sprintf("%d import_nocache %s dir=%s persistent=%v -> %q %s lists=%d", idx, path, want, persistent, content, errStr(err), len(nw)))
+	tag := fmt.Sprintf("op %d Importer.Import(%s) without cache, from directory %s", idx, path, want)
+	if persistent {
+		tag += " (long-lived importer)"
+		if prev, ok := s.pmemo[path]; ok {
+			s.out.Probe("reimport_on_long_lived_importer")
+			if len(nw) != 0 || err != nil || content != prev {
+				s.violate("importer-reimport", "%s: the importer imported this path before (%q); now %q, error %v, %d listing(s)", tag, prev, content, err, len(nw))
+			}
+			return
+		}
+	}
+	truth := s.w.stateID(i)
+	if want == "B" {
+		truth += "+B"
+	}
 	if len(nw) != 1 {
 		s.violate("nocache-import-list-count", "%s ran the listing command %d times (a cache-less importer has nothing to answer from)", tag, len(nw))
 		return
@@ -370,12 +408,28 @@ func (s *seqRun) importNoCache(op Op, idx int) {
 		s.out.Fault(nw[0].Fault)
 	}
 	s.out.Probe("import_without_cache")
-	if err == nil && content != truth {
-		s.violate("wrong-data", "%s: imported %q, the package is %q", tag, content, truth)
+	if want == "B" {
+		s.out.Probe("import_from_second_directory")
+	}
+	if nw[0].Dir != want {
+		s.violate("import-listed-in-wrong-directory", "%s: the listing command ran in directory %s", tag, nw[0].Dir)
 		return
 	}
-	if err != nil && nw[0].Fault == "" {
+	if err == nil && content != truth {
+		s.violate("wrong-data", "%s: imported %q, the package is %q there", tag, content, truth)
+		return
+	}
+	missing := want == "B" && i%2 == 1
+	if err != nil && nw[0].Fault == "" && !missing {
 		s.violate("fresh-listing-error", "%s: the listing succeeded, yet error %v", tag, err)
+		return
+	}
+	if err == nil && missing {
+		s.violate("unknown-package-served", "%s: the package does not exist in that directory, yet %q was imported", tag, content)
+		return
+	}
+	if err == nil && persistent {
+		s.pmemo[path] = content
 	}
 }
 
